@@ -165,7 +165,7 @@ def run_shard(ctx):
 
     for case in ctx.cases(ctx.params["trees"]):
         rng = ctx.rng(case)
-        tg = G.TreeGen(rng, U, max_nodes=rng.choice([3, 8, 16]), max_depth=5, max_width=4, share=0.15 if case % 3 == 0 else 0.0, twin=0.25, p_origin=0.6, hostile=0.0, exclude=(f"{P}Ser", f"{P}Blob"))  # bytes are not among the representable kinds of the statement; a per-instance init=False value cannot round-trip (don't-care)
+        tg = G.TreeGen(rng, U, max_nodes=rng.choice([3, 8, 16]), max_depth=5, max_width=4, share=0.15 if case % 3 == 0 else 0.0, twin=0.25, p_origin=0.6, hostile=0.0, exclude=(f"{P}Ser", f"{P}Blob", f"{P}Nested"))  # bytes / Any-typed nested tuples are not among the representable kinds of the statement; a per-instance init=False value cannot round-trip (don't-care)
         s = tg.tree()
         directed_union = case % 6 == 5
         if directed_union:
@@ -336,7 +336,7 @@ def run_shard(ctx):
     if ctx.only_case is None:
         for k in range(12):
             rng = ctx.rng(("reread", k))
-            tg = G.TreeGen(rng, U, max_nodes=8, max_depth=4, max_width=3, share=0.0, twin=0.1, p_origin=0.5, hostile=0.0, exclude=(f"{P}Ser", f"{P}Blob"))
+            tg = G.TreeGen(rng, U, max_nodes=8, max_depth=4, max_width=3, share=0.0, twin=0.1, p_origin=0.5, hostile=0.0, exclude=(f"{P}Ser", f"{P}Blob", f"{P}Nested"))
             s = tg.tree()
 
             def make_payload():
